@@ -46,7 +46,7 @@ def run_blocks(chk, exe, blocks, label):
     return mo, io
 
 
-def note_mismatches(chk, blocks, mo, io, label, limit=20):
+def note_mismatches(chk, blocks, mo, io, label, limit=20, report_what=None):
     """model/implementation disagreements.  Ops on a zone whose load already raised undefined
     behaviour (on either side) are not comparable — the C++ continues with wrapped values — and are skipped."""
     k = 0
@@ -70,6 +70,11 @@ def note_mismatches(chk, blocks, mo, io, label, limit=20):
                 k += 1
                 if len([x for x in chk.broken if x.startswith('correspondence')]) < limit:
                     chk.broken.append('correspondence: zone block `%s` op `%s` model=`%s` implementation=`%s`' % (b[0][:40], l[:100], a[:160], c[:160]))
+                if report_what and not (c.startswith('UB') or c.startswith('CRASH')) and k <= 50:
+                    # no independent expectation for this op: the model, whose behaviour here is the proved one, is the
+                    # reference; the deviating input is the replay
+                    chk.report('%s: `%s` = `%s`, but %s gives `%s`' % (b[0].split()[1], ' '.join(l.split()[:1] + l.split()[2:]), c, report_what, a),
+                               {'zone_definition': b[0][:20000], 'op': l, 'implementation': c, 'model': a}, sig='deviates from the model')
     chk.count(label + ':mismatch', k)
     return k
 
@@ -491,7 +496,7 @@ def run_C10(chk):
         for c in cs: b += ['mt %s %s' % (zid(i), C.fmt(c)), 'cv %s %s' % (zid(i), C.fmt(c))]
         blocks.append(b); meta.append((off, ts, cs))
     mo, io = run_blocks(chk, exe, blocks, 'extremes')
-    note_mismatches(chk, blocks, mo, io, 'extremes')
+    note_mismatches(chk, blocks, mo, io, 'extremes', report_what='the documented saturation / exact conversion (model, theorems C10.*)')
     good = 0
     # pass 2: the civil second shown at max()/min() converts back exactly
     blocks2 = []; meta2 = []
